@@ -213,6 +213,45 @@ pub fn run(out: &mut Out, seed: u64, tier: &str) {
             if fd_check_abs(out, &mut ff, &terms, &x, "uff grazing", &replay, &mut worst) { n_fd += 1; n_graze += 1; }
         }
     }
+    // van der Waals pairs on their own: two unbonded atoms of every element (quick: same-element pairs and a sample of mixed ones;
+    // thorough: also every pair with one of ten partners) just beyond the bonding threshold and further out — the only force in the
+    // system is the pair's, so a pair term whose force is lost or scaled shows at full size whatever its well depth
+    let mut n_pairs_fd = 0usize;
+    let partners = [1usize, 6, 8, 17, 25, 26, 46, 79, 92, 118];
+    let mut pair_list: Vec<(usize, usize)> = (1..=118usize).map(|z| (z, z)).collect();
+    for _ in 0..(if tier == "thorough" { 0 } else { 60 }) { pair_list.push((1 + rng.below(118), 1 + rng.below(118))); }
+    if tier == "thorough" { for z in 1..=118usize { for p in partners.iter() { pair_list.push((z, *p)); } } }
+    for (zi, zj) in pair_list {
+        let d0 = 1.3 * (radius(zi) + radius(zj));
+        for f in [1.06, 1.6] {
+            let d = d0 * f;
+            let g = Mol { name: format!("pair-{}-{}", zi, zj), zs: vec![zi, zj], xs: vec![[0.1, -0.2, 0.3], [0.1 + d * 0.48, -0.2 + d * 0.6, 0.3 - d * 0.64]] };
+            let mol = match catch(|| g.build()) { Some(x) => x, None => continue };
+            let mut ff = match FF::build("uff", &mol) { Some(f) => f, None => continue };
+            let terms = ff.terms();
+            if terms.len() != 1 || terms[0].kind != "lj" { continue; }
+            let x = g.points();
+            let e = ff.energy(&x);
+            if !e.is_finite() { continue; }
+            let replay = format!("uff forcefield on two unbonded atoms\n{}", g.xyz_text());
+            // tolerance relative to this pair's own force: no floor from an "ordinary" gradient scale
+            let gr = ff.gradient(&x);
+            let gmax = gr.iter().fold(0.0f64, |m, v| m.max(v.abs()));
+            let h = 2e-4;
+            let mut worst_here = 0.0f64;
+            for a in 0..2 { for c in 0..3 {
+                let mut dq = |hh: f64| { let mut p = x.clone(); p[a][c] += hh; let ep = ff.energy(&p); p[a][c] -= 2.0 * hh; let em = ff.energy(&p); (ep - em) / (2.0 * hh) };
+                let fd = (4.0 * dq(h / 2.0) - dq(h)) / 3.0;
+                worst_here = worst_here.max((gr[3 * a + c] - fd).abs());
+            } }
+            let scale = gmax.max(worst_here).max(1e-300);
+            if worst_here > 1e-5 * scale + 1e-13 * e.abs() / h {
+                out.oracle_fail(&format!("uff pair: the analytic force of the lone pair term (largest component {:e}) differs from the energy's finite difference by {:e}", gmax, worst_here), &replay);
+            }
+            n_pairs_fd += 1; n_fd += 1;
+        }
+    }
+    out.stat("lone_pairs_fd_checked", n_pairs_fd);
     out.stat("grazing_linear_geometries_fd_checked", n_graze);
     out.stat("wide_angle_geometries_fd_checked", n_wide);
     out.stat("cases", n_cases);
